@@ -2,7 +2,7 @@
 DESIGN.md C06.1 - C06.6 (structural clauses)."""
 import itertools
 
-from engine.cfg import (Explorer, estr, is_call, is_int, is_member, is_ref, strip_addr, walk,
+from engine.cfg import (same_expr, Explorer, estr, is_call, is_int, is_member, is_ref, strip_addr, walk,
                         written_lvalues, event_expr, back_edges)
 from engine.facts import AnalysisBroken
 from engine import lib
@@ -904,6 +904,73 @@ def c06_7(ck, prog):
     r.note('%d count-indexed stores examined' % n)
 
 
+def c06_10(ck, prog, rid='C06.10'):
+    r = ck.rule(rid, 'the policy gate is told every party the calling function knows: each DBusConnection parameter of '
+                'a function that calls the gate is one of the gate\'s sender / addressed recipient / proposed recipient '
+                'arguments, so a function that handles one recipient of many (match-rule recipients, eavesdroppers) '
+                'cannot present that recipient as the addressed one', 'WHO',
+                breaks='an eavesdropping connection is policy-checked as if the message were addressed to it: receive '
+                'rules without eavesdrop="true" let it read unicast traffic, and it is recorded as a legitimate replier',
+                floor=4)
+    n = 0
+    for f, b, i, c in prog.call_sites(GATE):
+        if not prog.is_production(f) or len(c['args']) < 5:
+            continue
+        n += 1
+        roles = c['args'][2:5]
+        used = {a.get('id') for a in roles if is_ref(a)}
+        conns = [p for p in f.params if (p.get('t') or '').replace(' ', '') == 'DBusConnection*']
+        missing = [p['name'] for p in conns if p['id'] not in used]
+        key = '%s@%d' % (f.name, n)
+        if missing:
+            r.violation('%s:party-not-told' % f.name, f.name, f.file, c['line'],
+                        '%s knows the connection(s) %s but calls the gate with (sender, addressed, proposed) = (%s): '
+                        'the gate cannot tell an addressed recipient from a recipient that merely matches' % (
+                            f.name, ', '.join(missing), ', '.join(estr(a) for a in roles)))
+        else:
+            r.ok(key, {'sender': estr(roles[0]), 'addressed': estr(roles[1]), 'proposed': estr(roles[2])})
+    if n < 4:
+        raise AnalysisBroken('call sites of the policy gate not found (%d)' % n)
+    # the proposed recipient is the connection the message is then sent to
+    so = prog.fn('send_one_message', 'bus/dispatch.c')
+    gate = [c for b, i, c in so.calls(GATE)]
+    send = [c for b, i, c in so.calls(('bus_transaction_send', 'bus_transaction_send_from_driver'))]
+    okp = gate and send and all(same_expr(g['args'][4], s['args'][2 if s['callee'] == 'bus_transaction_send' else 1])
+                                for g in gate for s in send)
+    (r.ok('send_one_message:proposed-is-the-receiver') if okp else
+     r.violation('send_one_message:proposed-is-the-receiver', so.name, so.file, so.line,
+                 'the connection the gate is asked about is not the connection the message is sent to'))
+
+
+def c06_11(ck, prog):
+    r = ck.rule('C06.11', 'send rules compare their destination with the message\'s destination and receive rules '
+                'compare their origin with the message\'s sender: every message accessor that is handed a rule\'s '
+                '`destination` is a destination accessor, every one handed `origin` a sender accessor', 'TAB',
+                breaks='receive_sender="org.freedesktop.DBus" (or send_destination) is matched against the wrong header '
+                'field: deny rules for bus-originated messages are bypassed and allow rules over-deny', floor=2)
+    P = 'bus/policy.c'
+    ACC = {'destination': {'dbus_message_has_destination', 'dbus_message_get_destination'},
+           'origin': {'dbus_message_has_sender', 'dbus_message_get_sender'}}
+    n = 0
+    for f in lib.prod_funcs(prog, {P}):
+        for b, i, c in f.calls():
+            cal = c.get('callee') or ''
+            if not cal.startswith('dbus_message_'):
+                continue
+            for a in c['args']:
+                if is_member(a) and a.get('field') in ACC and 'BusPolicyRule' in (a.get('rec') or '') + estr(a):
+                    n += 1
+                    key = '%s:%s(%s)' % (f.name, cal, a['field'])
+                    if cal in ACC[a['field']]:
+                        r.ok(key)
+                    else:
+                        r.violation(key, f.name, P, c['line'],
+                                    'the rule\'s %s is compared through %s: that reads the message\'s %s' % (
+                                        a['field'], cal, 'destination' if 'destination' in cal else 'sender'))
+    if n < 2:
+        raise AnalysisBroken('message accessors applied to rule destination / origin not found (%d)' % n)
+
+
 def c06_9(ck, prog):
     r = ck.rule('C06.9', 'rule order and currency: every insertion into a rule list in policy.c keeps file order '
                 '(append only), and a reload installs the new policy before the live connections\' client '
@@ -979,6 +1046,8 @@ def run(ck):
         c06_6c(ck, prog)
         c06_7(ck, prog)
         c06_9(ck, prog)
+        c06_10(ck, prog)
+        c06_11(ck, prog)
         # "requested reply" is what the policy's requested_reply qualifiers are evaluated against
         from rules.C09 import c09_2
         r8 = ck.rule('C06.8', 'a message is classified as a requested reply only when serial, receiver and sender '
